@@ -1665,6 +1665,8 @@ class Interp(object):
             v = idx[1]
             if isinstance(v, Const) and v.v is Ellipsis:
                 return ('all',)
+            if isinstance(v, Const) and v.v is None:
+                return ('newaxis',)     # numpy: None inserts an axis -- it never raises
             if isinstance(v, Mask):
                 return ('mask', v.cond)
             if is_const_num(v):
@@ -1702,6 +1704,8 @@ class Interp(object):
                 return ('col', parts[1][1])
             if len(parts) == 3 and parts[1] == ('all',) and parts[2] == ('all',):
                 return ('matrix', parts[0])
+            if any(p_ == ('newaxis',) for p_ in parts):
+                return ('reshaped-by-None', tuple(repr(p_) for p_ in parts))
             raise Unsupported('array index pattern %r' % (parts,), node)
         raise Unsupported('array index', node)
 
@@ -1730,6 +1734,11 @@ class Interp(object):
             raise Unsupported('sequence index', node)
         if isinstance(o, (Arr, View, Num)) and getattr(o, 'kind', None) == 'array':
             d = self.classify_array_index(idx, node)
+            if d[0] == 'reshaped-by-None':
+                t, _ = self.term_of(o, node)
+                if P.is_pw(t):
+                    raise Unsupported('None index on a piecewise term', node)
+                return Num(N.fn('newaxis_index', t, *d[1]), 'array')
             if d[0] == 'mask':
                 t, _ = self.term_of(o, node)
                 return Masked(t, d[1])
